@@ -987,38 +987,7 @@ _OPEN_MODE_DOC = """`OpenOptions::new().write(true).create(true).truncate(true).
 knows `OpenOptions::open` only as an opaque OPEN; `open_mode` reads the builder chain (constant flags on `OpenOptions::new()` /
 `File::options()`, the last setting of a flag wins) and names the std constructor it equals — anything else (append, a
 write-open that keeps the old contents, a flag that is not a constant) stays an opaque OPEN."""
-OO_FLAGS = ('read', 'write', 'append', 'truncate', 'create', 'create_new')
-OO_NEW = ('std::fs::OpenOptions::new', 'std::fs::File::options')
-
-
-def open_mode(builder):
-    flags = {}
-    v = builder
-    for _ in range(16):
-        while isinstance(v, tuple) and v and v[0] in ('unwrap', 'updated') and len(v) >= 2 and isinstance(v[1], tuple):
-            v = v[1]
-        if not (isinstance(v, tuple) and len(v) == 4 and v[0] == 'call'):
-            return None
-        if v[1] in OO_NEW and not v[2]:
-            break
-        name = v[1].rsplit('::', 1)
-        if len(name) != 2 or name[0] != 'std::fs::OpenOptions' or name[1] not in OO_FLAGS or len(v[2]) != 2:
-            return None
-        val = v[2][1]
-        if not (isinstance(val, tuple) and len(val) == 2 and val[0] == 'const' and isinstance(val[1], bool)):
-            return None
-        flags.setdefault(name[1], val[1])
-        v = v[2][0]
-    else:
-        return None
-    on = {k for k, b in flags.items() if b}
-    if on == {'read'}:
-        return 'read'
-    if on == {'write', 'create', 'truncate'}:
-        return 'create'
-    if 'create_new' in on and 'write' in on and 'append' not in on and 'read' not in on:
-        return 'create_new'
-    return None
+from .lib.effects import open_mode, OO_FLAGS, OO_NEW   # noqa: E402  (moved into the library after seed round 5)
 
 
 class Effects2(Effects):
